@@ -344,6 +344,37 @@ def fault_variants(i, ty):
     return vs
 
 
+def model_calls(drv, cases):
+    """system calls (kinds, in order) the model issues for each case as it stands"""
+    script = "\n".join("\n".join(c.lines()) for c in cases) + "\n"
+    rc, out, err = C.run_lines(drv, script, timeout=300)
+    per = split_cases(out)
+    return [calls_of(per[i]) if i < len(per) else [] for i in range(len(cases))]
+
+
+def short_write_faults(rng, calls, density):
+    """short / zero outcomes placed on pwrite calls (indices of the fault-free run)"""
+    toks = []
+    idx = [i for i, ty in enumerate(calls) if ty == "pwrite"]
+    shift = 0
+    for i in idx:
+        if rng.random() < density:
+            r = rng.random()
+            if r < 0.55:
+                toks.append("%d=S%d" % (i + shift, rng.choice([1, 2, 7, 50, 95, 96, 97, 150, rng.randint(1, 400)])))
+                shift += 1
+            elif r < 0.8:
+                toks.append("%d=Z" % (i + shift))
+                shift += 1
+            elif r < 0.93:
+                toks += ["%d=Z" % (i + shift), "%d=S%d" % (i + shift + 1, rng.choice([1, 3, 96])), "%d=Z" % (i + shift + 2)]
+                shift += 3
+            else:
+                toks += ["%d=Z" % (i + shift), "%d=Z" % (i + shift + 1), "%d=Z" % (i + shift + 2)]
+                shift += 2
+    return toks
+
+
 def exhaustive_fault_cases(drv, kinds=("raw", "tiff", "sxs", "trash")):
     """every fault index x fault kind of every base history of every device kind"""
     bases = []
